@@ -54,7 +54,20 @@ class XmlGenerator(TreeListener):
                 break
         items = []
         for f in ["start", "value"]:
-            val = getattr(tree, f).value
+            attribute = getattr(tree, f)
+            if (
+                isinstance(attribute, ast.Expression)
+                and attribute.operator == "-"
+                and len(attribute.operands) == 1
+                and isinstance(attribute.operands[0], ast.Primary)
+            ):
+                # A negative literal is parsed as a unary minus expression
+                val = -attribute.operands[0].value
+            elif isinstance(attribute, ast.Primary):
+                val = attribute.value
+            else:
+                # Only literal values are exported
+                continue
             if val is None:
                 continue
             items.append(E("item", E("real", value=str(val)), name=f))
